@@ -293,6 +293,24 @@ def execute(case):
                 cur = core.read_rel(sc.root, f)
                 if cur != (written[f] if f in W else orig[f]) and rff.exit == 0:
                     v.add("C06:files-text-under-short-writes", "%s: bytes stored under short/interrupted writes differ from the fault-free files-mode text (exit 0)" % f)
+        # a failing file-system call in a writing mode: either an error is reported, or every file holds the
+        # complete text -- never "no error reported" together with a file that was not (completely) rewritten
+        if W:
+            nmut = len([e for e in rf.muts()]) + len([e for e in rf.events if e.op == "write" and e.path and not e.path.startswith("@")])
+            for tag, extra, per in (("files", [], 2), ("backup", ["--backup"], 4)):
+                kmax = max(1, len(W) * per)
+                k = 1 + (case["hashseed"] // 7) % kmax
+                en = [28, 5, 13, 30, 21][(case["hashseed"] // 11) % 5]
+                re_, _ = run(tag + "-errno", extra + rootargs, readonly=False, plan=["* mut %d * errno %d" % (k, en)])
+                v.planned("errno")
+                if not any(e.fault for e in re_.events):
+                    continue
+                v.fired("errno")
+                reported = re_.exit != 0 or core.text_of(re_.stderr).strip()
+                if not reported:
+                    bad = [f for f in W if core.read_rel(sc.root, f) != written[f]]
+                    if bad:
+                        v.add("C06:silent-io-error|%s" % tag, "errno %d on mutating op %d of `rustfmt %s`: exit 0 and nothing on stderr, yet %s does not hold the formatted text" % (en, k, " ".join(extra), bad[:2]))
         rb, dbk = run("backup", ["--backup"]+ rootargs, readonly=False, plan=file_plan)
         for f in srcs:
             cur = core.read_rel(sc.root, f)
@@ -343,6 +361,8 @@ def execute(case):
             f = srcs[0]
             d = os.path.dirname(f)
             ri, _ = run("stdin", [], stdin=orig[f], cwd=d, plan=in_plan)
+            if f in T and ri.exit != 0 and not core.abnormal(ri):
+                v.add("C06:stdin-rejected-but-path-accepted", "%s formats as a path but fails on stdin (exit %s, stderr %r)" % (f, ri.status(), core.text_of(ri.stderr)[:160]))
             if f in T and ri.stdout != T[f] and ri.exit == 0:
                 v.add("C06:stdin-vs-path-text", "%s: text for the source on stdin (%d bytes) != text for the path (%d bytes)" % (f, len(ri.stdout), len(T[f])))
             if sf and any("SHORT" in e.raw or e.fault for e in ri.events):
